@@ -142,8 +142,7 @@ class Inliner(object):
     outer = getattr(self, '_cur_locals', None)
     self._cur_locals = _locals_of(node) | (outer or set())
     try:
-      if any(isinstance(x, (ast.Yield, ast.YieldFrom)) for x in walk_no_nested(node, include_self=False)):
-        node.body = self._delegations(node.body, fi, [fi.key], inlined, True)
+      node.body = self._delegations(node.body, fi, [fi.key], inlined, True)
       node.body = self._block(node.body, fi, [fi.key], inlined, 0)
       # calls that came in with a spliced body and whose receiver is a name of this function (self.helper2(...) inside
       # helper1) resolve in this function's context: a few more rounds pick them up
